@@ -25,7 +25,8 @@ CONSTANTS Type,     \* "SUM" | "RATIO" | "CHOICE" | "MISC"
           NChoice,  \* number of choices (CHOICE)
           NSets,    \* number of SimulationResults objects
           MaxObs,   \* bound on the total number of observations held by all sets (state constraint)
-          Dev       \* [EmptyMergeAliases, MiscMergeAdds, SqSumNotMerged : BOOLEAN]
+          SkipOn,   \* BOOLEAN: some sets carry the runner's num_skipped_reps counter (own configuration: it multiplies the states)
+          Dev       \* [EmptyMergeAliases, MiscMergeAdds, SqSumNotMerged, SkipCounterCloned : BOOLEAN]
 
 (* ------------------------------ the code, step by step ---------------------------------- *)
 ZeroVal == IF Type = "CHOICE" THEN [i \in 1..NChoice |-> 0] ELSE RZero
@@ -85,8 +86,12 @@ Stats(o) == IF o.n = 0 \/ Type = "MISC" \/ Type = "CHOICE" THEN <<>>
                  [mean |-> mean, var |-> RSub(RDiv(o.sqsum, R(o.n)), RSq(mean))]
 
 (* ------------------------------ actions ------------------------------------------------- *)
-VARIABLES sets, alias, sobs, last
-vars == <<sets, alias, sobs, last>>
+VARIABLES sets, alias, sobs, last,
+          skp    \* per set: the values of its `num_skipped_reps` results (the counter the runner adds to a result set; a set
+                 \* may lack it, and merge_all_results has a special rule for it)
+vars == <<sets, alias, sobs, last, skp>>
+\* which freshly created sets carry the counter (a fixed pattern: both kinds meet in merges), and with which value
+HasSkip(s, k) == SkipOn /\ (s + k) % 2 = 0
 S == 1..NSets
 RECURSIVE CntSeq(_)
 CntSeq(q) == IF q = <<>> THEN 0 ELSE Len(Head(q)) + CntSeq(Tail(q))
@@ -95,6 +100,7 @@ CntAll(k) == IF k = 0 THEN 0 ELSE CntSeq(sobs[k]) + CntAll(k - 1)
 TotalObs == CntAll(NSets)
 
 Init == /\ sets = [s \in S |-> <<>>] /\ sobs = [s \in S |-> <<>>] /\ alias = {} /\ last = [op |-> "init"]
+        /\ skp = [s \in S |-> <<>>]
 
 \* sets whose last result is the same object as the last result of s
 Sharing(s) == {s} \cup UNION {b \in alias : s \in b}
@@ -108,6 +114,7 @@ AddNew(s, k) ==
   /\ sets' = [sets EXCEPT ![s] = <<ObjUpdate(Empty, ObsAlpha[k])>>]
   /\ alias' = Leave(alias, s)
   /\ sobs' = [sobs EXCEPT ![s] = << <<ObsAlpha[k]>> >>]
+  /\ skp' = [skp EXCEPT ![s] = IF HasSkip(s, k) THEN <<k>> ELSE <<>>]
   /\ last' = [op |-> "AddNew", s |-> s, k |-> k]
 
 \* s.add_result(Result(name, type, accumulate_values, choice_num)): a result without observations
@@ -116,6 +123,7 @@ AddEmpty(s) ==
   /\ sets' = [sets EXCEPT ![s] = <<Empty>>]
   /\ alias' = Leave(alias, s)
   /\ sobs' = [sobs EXCEPT ![s] = << <<>> >>]
+  /\ skp' = [skp EXCEPT ![s] = <<>>]
   /\ last' = [op |-> "AddEmpty", s |-> s]
 
 \* s[name][-1].update(v, t)
@@ -123,7 +131,7 @@ UpdateLast(s, k) ==
   /\ sets[s] # <<>>
   /\ sets' = Mutate(s, ObjUpdate(LastOf(s), ObsAlpha[k]))
   /\ sobs' = [sobs EXCEPT ![s][Len(sobs[s])] = Append(@, ObsAlpha[k])]
-  /\ UNCHANGED alias
+  /\ UNCHANGED <<alias, skp>>
   /\ last' = [op |-> "UpdateLast", s |-> s, k |-> k]
 
 \* a rejected observation (RATIO without a total -> ValueError; CHOICE with an index that is not an integer or is
@@ -131,7 +139,7 @@ UpdateLast(s, k) ==
 RejectedUpdate(s, kind) ==
   /\ Type \in {"RATIO", "CHOICE"} /\ sets[s] # <<>>
   /\ (kind = "noTotal") <=> (Type = "RATIO")
-  /\ UNCHANGED <<sets, alias, sobs>>
+  /\ UNCHANGED <<sets, alias, sobs, skp>>
   /\ last' = [op |-> "RejectedUpdate", s |-> s, kind |-> kind]
 
 \* a MISC result that never saw an observation has no "last observation": merging it IN is outside the law
@@ -143,7 +151,7 @@ MergeRes(s, t) ==
   /\ MiscGuard(t)
   /\ sets' = Mutate(s, ObjMerge(LastOf(s), LastOf(t)))
   /\ sobs' = [sobs EXCEPT ![s][Len(sobs[s])] = @ \o sobs[t][Len(sobs[t])]]
-  /\ UNCHANGED alias
+  /\ UNCHANGED <<alias, skp>>
   /\ last' = [op |-> "MergeRes", s |-> s, t |-> t]
 
 \* s.merge_all_results(t): t holds exactly one result
@@ -159,6 +167,12 @@ MergeAll(s, t) ==
             /\ UNCHANGED alias
   /\ sobs' = IF sets[s] = <<>> THEN [sobs EXCEPT ![s] = sobs[t]]
              ELSE [sobs EXCEPT ![s][Len(sobs[s])] = @ \o sobs[t][1]]
+  \* the counter: copied with everything else into an empty receiver; otherwise merged into the receiver's last counter,
+  \* which is created (with value 0) when the receiver has none; an operand without a counter leaves it alone
+  /\ skp' = IF sets[s] = <<>> THEN [skp EXCEPT ![s] = skp[t]]
+            ELSE IF skp[t] = <<>> THEN skp
+            ELSE IF skp[s] = <<>> THEN [skp EXCEPT ![s] = <<(IF Dev.SkipCounterCloned THEN 2 ELSE 1) * skp[t][Len(skp[t])]>>]
+            ELSE [skp EXCEPT ![s][Len(skp[s])] = @ + skp[t][Len(skp[t])]]
   /\ last' = [op |-> "MergeAll", s |-> s, t |-> t]
 
 \* s.append_all_results(t); the objects now belong to s (t is dropped by the caller)
@@ -167,6 +181,7 @@ AppendAll(s, t) ==
   /\ sets' = [sets EXCEPT ![s] = @ \o sets[t], ![t] = <<>>]
   /\ sobs' = [sobs EXCEPT ![s] = @ \o sobs[t], ![t] = <<>>]
   /\ alias' = {IF t \in b THEN (b \ {t}) \cup {s} ELSE b : b \in Leave(alias, s)}
+  /\ skp' = [skp EXCEPT ![s] = @ \o skp[t], ![t] = <<>>]
   /\ last' = [op |-> "AppendAll", s |-> s, t |-> t]
 
 Next ==
@@ -186,12 +201,16 @@ NoSharing == alias = {}
 StatsLaw == \A s \in S : \A p \in 1..Len(sets[s]) :
               LET o == sets[s][p] IN
               (Type \in {"SUM", "RATIO"} /\ o.n > 0) => RSgn(Stats(o).var) >= 0
+\* the counter a receiver gets from merge_all_results is the operand's count (plus its own, if it had one): never more
+SkipLaw == [][(last'.op = "MergeAll" /\ sets[last'.s] # <<>> /\ skp[last'.t] # <<>>) =>
+                 skp'[last'.s][Len(skp'[last'.s])] =
+                   (IF skp[last'.s] = <<>> THEN 0 ELSE skp[last'.s][Len(skp[last'.s])]) + skp[last'.t][Len(skp[last'.t])]]_vars
 \* merging never changes a result held by another set
 OperandUnchanged ==
   [][last'.op \in {"MergeRes", "MergeAll"} => \A t \in S \ {last'.s} : sets'[t] = sets[t]]_vars
 
 (* ------------------------------ emission ------------------------------------------------ *)
-Emit == EmitEdge([pre |-> [sobs |-> sobs], post |-> [sobs |-> sobs'],
+Emit == EmitEdge([pre |-> [sobs |-> sobs, skp |-> skp], post |-> [sobs |-> sobs', skp |-> skp'],
                   \* expected content of every set whose ghost changed in this step (<<"same">>: as before the step)
                   op |-> last', exp |-> [s \in S |-> IF sobs'[s] = sobs[s] THEN <<"same">> ELSE [p \in 1..Len(sobs'[s]) |->
                                          [f |-> Fold(sobs'[s][p]), n |-> Len(sobs'[s][p]),
